@@ -11,8 +11,8 @@ static std::string g_prop = "C07";
 static std::vector<uint8_t> g_bank;
 
 enum EK { K_ON, K_OFF, K_ON0, K_CC7, K_PROG, K_BEND, K_CPRESS, K_PPRESS, K_SYSEX, K_TEXT, K_MARKER, K_TEMPO_A, K_TEMPO_B, K_EOT, K_NK,
-          K_CC64, K_CC10, K_CC11, K_BANKM, K_BANKL, K_RPN, K_LOOPSTART, K_LOOPEND, K_CC111 };
-static const char *KN[] = {"noteOn", "noteOff", "noteOn(vel0)", "cc7", "program", "bend", "chanPressure", "polyPressure", "sysex", "text", "marker", "tempoA", "tempoB", "EOT", "?", "cc64", "cc10", "cc11", "bankMSB", "bankLSB", "rpn0", "loopStart", "loopEnd", "cc111"};
+          K_CC64, K_CC10, K_CC11, K_BANKM, K_BANKL, K_RPN, K_LOOPSTART, K_LOOPEND, K_CC111, K_DEV_A, K_DEV_B };
+static const char *KN[] = {"noteOn", "noteOff", "noteOn(vel0)", "cc7", "program", "bend", "chanPressure", "polyPressure", "sysex", "text", "marker", "tempoA", "tempoB", "EOT", "?", "cc64", "cc10", "cc11", "bankMSB", "bankLSB", "rpn0", "loopStart", "loopEnd", "cc111", "deviceName(A)", "deviceName(B)"};
 static const uint32_t TEMPO_A = 300000, TEMPO_B = 750000;
 
 struct Item { uint32_t delta; int kind; };
@@ -48,6 +48,7 @@ static void encode_event(gm::Track &t, const Item &it, int ch, int idx, int &run
     case K_SYSEX: running_status = -1; t.d.push_back(0xF0); t.d.push_back(4); t.d.push_back(0x7D); t.d.push_back((uint8_t)ch); t.d.push_back(v); t.d.push_back(0xF7); break;
     case K_TEXT: running_status = -1; t.d.push_back(0xFF); t.d.push_back(0x01); t.d.push_back(2); t.d.push_back((uint8_t)('a' + ch)); t.d.push_back(v); break;
     case K_MARKER: running_status = -1; t.d.push_back(0xFF); t.d.push_back(0x06); t.d.push_back(3); t.d.push_back('m'); t.d.push_back((uint8_t)('a' + ch)); t.d.push_back(v); break;
+    case K_DEV_A: case K_DEV_B: running_status = -1; t.d.push_back(0xFF); t.d.push_back(0x09); t.d.push_back(1); t.d.push_back(it.kind == K_DEV_A ? 'A' : 'B'); break;
     case K_LOOPSTART: running_status = -1; t.d.push_back(0xFF); t.d.push_back(0x06); t.d.push_back(9); gm::put_str(t.d, "loopStart"); break;
     case K_LOOPEND: running_status = -1; t.d.push_back(0xFF); t.d.push_back(0x06); t.d.push_back(7); gm::put_str(t.d, "loopEnd"); break;
     case K_TEMPO_A: case K_TEMPO_B: { uint32_t us = it.kind == K_TEMPO_A ? TEMPO_A : TEMPO_B; running_status = -1; t.d.push_back(0xFF); t.d.push_back(0x51); t.d.push_back(3); t.d.push_back((uint8_t)(us >> 16)); t.d.push_back((uint8_t)(us >> 8)); t.d.push_back((uint8_t)us); break; }
